@@ -70,6 +70,14 @@ def c02(tier, rng):
     # callable values: equality and order are by content / identity, never by appearance
     twins = ['"ন\u09df"', '"ন\u09af\u09bc"', '"\u00e9"', '"e\u0301"', '"ক\u09cb"', '"ক\u09c7\u09be"', '"\u212b"', '"\u00c5"', '"A\u030a"', '"\u1e9b\u0323"', '"\u1e9b\u0323 "', '"a"', '"A"', '"a "', '" a"',
              '"\uff21"', '"\u0391"', '"\u0410"', '"ss"', '"\u00df"', '"i"', '"\u0130"', '"1"', '"১"', '"1.0"', '"01"']
+    # strings with characters that mean something to a formatting or escaping layer underneath, on either side of every
+    # operator together with numbers and the other kinds
+    special = ['"%"', '"%d"', '"%s"', '"%v"', '"%%"', '"100%"', '"% off"', '"%!"', '"%5.2f"', '"{}"', '"{0}"', '"$1"', '"${x}"', '"\\"', '"\\n"', '"\\t"', '"\\u09df"', '"&amp;"', '"<b>"', '"\x00"', '"\x1b[0m"']
+    others = ['50', '12.5', '0', '(-1)', '"a"', 'nil', TRUE, '[1]', '({k: 1})', 'f']
+    for op in ['+', '==', '!=', '<', '-', '*']:
+        for sp in special:
+            for o_ in others + special[:6]:
+                cases.append(prog_case(f'{PRELUDE}{P} {o_} {op} {sp};\n{P} {sp} {op} {o_};\n{P} [{o_} {op} {sp}];\n{VAR} t = {sp};\n{P} {o_} {op} t;', 'format-special-strings'))
     for op in ['==', '!=', '<', '<=', '>', '>=', '+']:
         for l in twins:
             for r in twins:
@@ -109,7 +117,7 @@ def c02(tier, rng):
         e = g.e_any(Scope(), 4)
         cases.append(prog_case(f'{PRELUDE}{P} {r_expr(e)};', 'random-nested'))
     rule = (f'every binary operator x every ordered pair of {len(VALUES)} value expressions (all kinds; boundary magnitudes +-0, 63, 64, 2^31, 2^53, 2^63, 1e308, Inf, NaN; numeric-looking strings; '
-            f'aliased and fresh arrays/objects; user and built-in functions) = {len(BINOPS) * len(VALUES) ** 2}; ** over {len(POW_BASE)}x{len(POW_EXP)} exactly representable cases; 7 operators x {len(twins)}^2 strings that are canonically equivalent, differ in case / width / one blank, or are numerals of different spelling; == and != on every pair of the {len(callables)} callable values (directly, through a variable, inside an array); 8 operators x {len(magic_l)} bases x {len(magic_r)} notable right operands (thirds, halves, small integers, written as an expression and held in a variable); unary operators once and twice; '
+            f'aliased and fresh arrays/objects; user and built-in functions) = {len(BINOPS) * len(VALUES) ** 2}; ** over {len(POW_BASE)}x{len(POW_EXP)} exactly representable cases; 7 operators x {len(twins)}^2 strings that are canonically equivalent, differ in case / width / one blank, or are numerals of different spelling; {len(special)} strings with characters special to formatting / escaping layers (%, {{}}, $, backslash, &amp;, NUL, ESC) on either side of 6 operators with every kind; == and != on every pair of the {len(callables)} callable values (directly, through a variable, inside an array); 8 operators x {len(magic_l)} bases x {len(magic_r)} notable right operands (thirds, halves, small integers, written as an expression and held in a variable); unary operators once and twice; '
             f'{n} seeded random double pairs written as exact decimal literals; {m} random nested expressions. Non-trivial = prints a value or a diagnostic (all do).')
     return {'cases': cases, 'rule': rule, 'exhaustive': True, 'oracles': [oracle_eq_laws]}
 
@@ -799,6 +807,17 @@ def c12(tier, rng, reps=None):
                f'{P} o;\n{P} inner;\n{P} alias;\n{P} {N["keys"]}(o);\n{P} "after";\n')
         cases.append(prog_case(src, 'delete-odd-key'))
         cases.append(prog_case(f'{VAR} o = {{a: {{b: 1}}}};\n{VAR} k = "{key}";\n{P} {N["delete"]}(o.a, k);\n{P} o;\n', 'delete-odd-key'))
+    # a property that holds a function is called when it is called, whatever its name means to a reader; an absent
+    # property is an error on every kind of receiver; nothing is a "method"
+    from .words import WORDS
+    meth = ['সাইজ', 'লেংথ', 'কাউন্ট', 'পুশ', 'পপ', 'যোগ', 'মুছ', 'কি', 'মান', 'টাইপ', 'স্ট্রিং', 'length', 'size', 'count', 'push', 'pop', 'keys', 'values', 'toString', 'len', 'has', 'get', 'set'] + list(NAT.values()) + WORDS[:25]
+    for w in meth:
+        src = (f'{FUN} mine() {{ {RET} "called"; }}\n{FUN} mine1(x) {{ {RET} ["called with", x]; }}\n{VAR} o = {{a: 1, b: 2}};\no.{w} = mine;\n{P} o.{w}();\n{P} o.{w} == mine;\n{P} {N["keys"]}(o);\n'
+               f'o.{w} = mine1;\n{P} o.{w}(7);\n{VAR} p2 = {{a: 1, b: 2, c: 3}};\n{P} "before";\n{P} p2.{w}();\n{P} "not reached";\n')
+        cases.append(prog_case(src, 'called-property'))
+        for recv in ['[1, 2, 3]', '"text"', '({a: 1})', '5', 'nil', 'mine']:
+            cases.append(prog_case(f'{FUN} mine() {{ {RET} 1; }}\n{P} "before";\n{P} {recv}.{w}();\n{P} "not reached";\n', 'called-property'))
+            cases.append(prog_case(f'{FUN} mine() {{ {RET} 1; }}\n{P} "before";\n{P} {recv}.{w};\n{P} "not reached";\n', 'called-property'))
     # literals with 0..6 keys in every order of a 4-key subset
     for n in range(0, 7):
         for ks in itertools.permutations(OKEYS[:6], min(n, 4)) if n <= 4 else [tuple(OKEYS[:n])]:
@@ -886,6 +905,12 @@ def c13(tier, rng):
     rule = (f'{len(progs)} programs (object-operation sequences over a key pool with case-only and length differences, object literals whose initialisers print, random programs, the shipped examples without ক্লক, programs that overwrite every built-in name or end in an error) '
             f'each run {reps}x in one process and {reps // 2}x in fresh processes; stdout, stderr and status must be byte-identical across runs and equal to the model. Non-trivial = all.')
     cli += long_loop_cases()
+    # dense printing for longer than a second: every run writes the same bytes (a background flusher, a timer, a buffer
+    # shared with another goroutine show up as truncated or reordered output in some run)
+    dense = f'{VAR} i = 0;\n{WHILE} (i < 400000) {{ i = i + 1; {P} i; }}\n{P} "end";\n'
+    for k in range(3):
+        cli.append(CliCase('impl-only-dense-output', ['p.bn'], {'p.bn': dense.encode()}, b'', 'p.bn',
+                           note={'out': ''.join(go_v(j) + '\n' for j in range(1, 400001)) + 'end\n', 'err': '', 'status': 0}))
     return {'cases': cases, 'cli': cli, 'rule': rule + ' Three loops of 2.5 to 6 million iterations through the executable (implementation alone: the prescribed output).', 'exhaustive': False,
             'oracles': [oracle_repeat_equal], 'cli_oracles': [cli_oracle_repeat, cli_oracle_expect], 'cli_timeout': 90}
 
@@ -904,7 +929,8 @@ def cli_oracle_repeat(clis):
 
 PROBE_PRE = (f'{FUN} p(tag, v) {{ {P} "<" + tag + ">"; {RET} v; }}\n{FUN} f0() {{ {RET} 0; }}\n{FUN} id3(a, b, c) {{ {RET} [a, b, c]; }}\n'
              f'{VAR} A = [10, 20, 30];\n{VAR} O = {{k: 1}};\n{VAR} x = 0;\n')
-TRUTH_VALUES = ['nil', FALSE, TRUE, '0', '(-0)', '(10 ** 400 - 10 ** 400)', '1', '0.5', '""', '"a"', '"0"', '" "', '[]', '[0]', '{}', '({p: 1})', 'f0', N['len'], '(0 * (0 - 1))',
+TRUTH_VALUES = ['"' + KW['false'] + '"', '"' + KW['true'] + '"', '"false"', '"true"', '"nil"', '"null"', '"না"', '"no"', '"off"', '"[]"', '"{}"', '"0.0"', '"-0"', '"NaN"', '"\u09e6"',
+                'nil', FALSE, TRUE, '0', '(-0)', '(10 ** 400 - 10 ** 400)', '1', '0.5', '""', '"a"', '"0"', '" "', '[]', '[0]', '{}', '({p: 1})', 'f0', N['len'], '(0 * (0 - 1))',
                 '(0.1 + 0.2 - 0.3)', '(0.3 - 0.1 - 0.2)', '0.000000000000000001', '(-0.0000000000000000000000001)', '0.' + '0' * 323 + '5', '(1 / (10 ** 300))', '(10 ** 400)']
 
 def c14(tier, rng):
@@ -1045,6 +1071,8 @@ def c15(tier, rng):
         for d in ['\u09af', '\u09b0', '\u09a4', '\u09b7']:
             strs.append(c + '\u09cd' + d)
     # line-break and control characters inside a string are characters like any other
+    for sp_ in ['%', '%d', '%s', '%v', '%%', '100%', '% off', '%!', '%5.2f', '%!d(MISSING)', '{}', '{0}', '$1', '${x}', '\\', '\\n', '\\t', '&amp;', '<b>', '\x1b[0m']:
+        strs.append(sp_); strs.append('a' + sp_ + 'b')
     for brk in ['\r\n', '\r', '\n\r', '\n\n', '\r\r\n', '\t\r\n', '\x0b', '\x0c', '\x00', '\x1b', '\x7f', '\u0085', '\u2028', '\u2029', '\ufeff', '\u00a0', '\u00ad', '\u200b', '\u200e', '\u202e', '\ufffd', '\ufffe']:
         strs.append('ab' + brk + 'cd'); strs.append(brk); strs.append(brk + 'x'); strs.append('x' + brk)
     if tier == 'thorough':
@@ -1147,9 +1175,14 @@ def c16(tier, rng):
         q = '"' + lit + '"'
         half = len(lit) // 2
         ps = [q, f'("{lit[:half]}" + "{lit[half:]}")', f'({{k: {q}}}).k', f'[{q}][0]', f'rs({q})', f'({q} || 0)', f'{N["input"]}()', f'{N["keys"]}({{{lit}: 1}})[0]' if lit.isidentifier() else q,
-              f'{N["values"]}({{k: {q}}})[0]', f'("" + {q})', f'({q} + "")']
+              f'{N["values"]}({{k: {q}}})[0]', f'("" + {q})', f'({q} + "")',
+              # every built-in and construct a value can pass through unchanged
+              f'{N["append"]}([], {q})[0]', f'{N["append"]}([{q}], 1)[0]', f'{N["remove"]}([{q}, 1], 1)[0]', f'{N["remove"]}([1, {q}], 0)[0]', f'({TRUE} && {q})', f'(nil || {q})',
+              f'[[{q}]][0][0]', f'({{a: {{b: {q}}}}}).a.b', f'rs(rs({q}))']
         if lit.isascii() and lit.isdigit() and not (len(lit) > 1 and lit[0] == '0'):
             ps += [f'("" + {lit})', f'({lit} + "")', f'("" + ({lit} + 0))']      # the text of a number is the string
+        if lit[:2].isdigit() and not lit.isdigit():
+            ps += [f'({lit[:2]} + "{lit[2:]}")', f'({lit[:1]} + "{lit[1:]}")', f'(("" + {lit[:2]}) + "{lit[2:]}")']      # a number spliced in front
         if any(ch in lit for ch in '\r\n') or lit != lit.strip():
             ps = [p_ for p_ in ps if N['input'] not in p_]      # not one stdin line / trimmed by ইনপুট
             ps += [f'("{lit[:1]}" + "{lit[1:]}")', f'("{lit[:-1]}" + "{lit[-1:]}")'] + [f'("{lit[:k]}" + "{lit[k:]}")' for k in range(1, len(lit)) if lit[k - 1] in '\r\n\t ' or lit[k] in '\r\n\t ']
@@ -1182,7 +1215,7 @@ def c16(tier, rng):
                     continue        # two reads in one program: not the same stdin position
                 src = pre + sub(ctx).replace('H2', lit_text).replace('H', prod) + '\n'
                 cases.append(prog_case(src, f'{kind}-context', stdin=stdin, group=f'{kind}:{value}:{ci}', note=(pi, prod)))
-    for lit in ['abc', '', '12', '3', 'k', '০৭', 'a b', 'ন\u09df', 'প\u09dc\u09be', 'cafe\u0301', 'ম\u09c7\u09beট', 'ab\r\ncd', 'x\ny', 'a\rb', 'a\tb', ' pad ', 'q\n', '\r\n']:
+    for lit in ['abc', '', '12', '3', 'k', '০৭', 'a b', '50%', '% off', '%d', '{}', 'a\\b', 'ন\u09df', 'প\u09dc\u09be', 'cafe\u0301', 'ম\u09c7\u09beট', 'ab\r\ncd', 'x\ny', 'a\rb', 'a\tb', ' pad ', 'q\n', '\r\n']:
         ps = str_producers(lit) if lit else ['""', '("" + "")', '({k: ""}).k', '[""][0]', 'rs("")', f'{N["input"]}()']
         emit('string', lit, ps, '"' + lit + '"', (lit + '\nsecond\n').encode())
     for n in ([3, 8, 1000000, 2097152] if tier == 'quick' else [3, 8, 1, 0, 64, 1000000, 2097152, 4294967296, 100000000]):
